@@ -467,6 +467,102 @@ theorem numeric_canon {α} (p : RW α) (h : p.Numeric) (bs : Bytes) : p.Canon bs
 example : (RW.prim int32 0 (fun _ => RW.prim bits64 0 (fun x => RW.done x))).Numeric :=
   ⟨int32_decenc, fun _ => ⟨bits64_decenc, fun _ => trivial⟩⟩
 
+/-- what the writer produced is canonical, and re-seeding a program from its own output changes nothing -/
+theorem written_canon {α} (p : RW α) (hl : p.RT) (h : p.WF) (rest : Bytes) :
+    p.Canon (p.write.1 ++ rest) ∧ (p.reseed (p.write.1 ++ rest)).write = p.write := by
+  induction p with
+  | done a => simp [RW.Canon, RW.reseed]
+  | prim c v k ih =>
+    obtain ⟨hv, hk⟩ := h
+    obtain ⟨hc, hlk⟩ := hl
+    have hd := hc v ((k v).write.1 ++ rest) hv
+    obtain ⟨i1, i2⟩ := ih v hlk hk
+    simp only [RW.Canon, RW.reseed, RW.write, List.append_assoc, hd]
+    exact ⟨⟨trivial, i1⟩, by rw [i2]⟩
+
+
+/-- **Writing what was read reproduces the whole file**: if a file program (any sequence of records, record
+presence depending on earlier data) reads `bs` and `bs` is canonically encoded (`File.Canon`: blank-padded text,
+canonical count fields, each leading count equal to the bytes its fields declare, the frame's terminator), then the
+program re-seeded with the values read writes exactly the bytes consumed and returns the same data. -/
+theorem file_rewrite_identical {α} (fr : Frame) (f : File α) (bs rest : Bytes) (a : α)
+    (hr : f.read fr bs = some (a, rest)) (hc : f.Canon fr bs) :
+    ((f.reseed fr bs).write fr).1 ++ rest = bs ∧ ((f.reseed fr bs).write fr).2 = a := by
+  induction f generalizing bs with
+  | done a' =>
+    simp only [File.read, Option.some.injEq, Prod.mk.injEq] at hr
+    simp [File.reseed, File.write, hr.1, hr.2]
+  | record body k ih =>
+    simp only [File.read] at hr
+    simp only [File.Canon] at hc
+    simp only [File.reseed]
+    split at hr
+    · simp at hr
+    · rename_i n r1 h1
+      rw [h1] at hc
+      simp only [] at hc
+      try simp only [h1]
+      split at hr
+      · simp at hr
+      · rename_i b r2 h2
+        rw [h2] at hc
+        simp only [] at hc
+        try simp only [h2]
+        split at hr
+        · simp at hr
+        · rename_i n2 r3 h3
+          rw [h3] at hc
+          simp only [] at hc
+          try simp only [h3]
+          split at hr
+          · rename_i hn
+            split at hr
+            · simp at hr
+            · rename_i w r4 h4
+              rw [h4] at hc
+              simp only [] at hc
+              try simp only [h4]
+              obtain ⟨c1, c2, c3, c4, c5, c6⟩ := hc
+              obtain ⟨b1, b2⟩ := rewrite_identical body r1 r2 b h2 c3
+              simp only [File.write, List.append_assoc]
+              rw [b2]
+              obtain ⟨i1, i2⟩ := ih b r4 hr c6
+              obtain ⟨t1, _⟩ := takeExact_some _ _ _ _ h4
+              rw [i1, i2, ← c2, ← c5, t1]
+              subst hn
+              rw [c4, b1, c1]
+              exact ⟨rfl, rfl⟩
+          · simp at hr
+
+/-- the same for whole files: a file the writer produced (with a frame whose count field round-trips and whose
+declared counts fit it) is canonical -/
+theorem written_file_canon {α} (fr : Frame) (hfr : fr.count.RT) (f : File α) (hl : f.RT) (h : f.WF fr)
+    (rest : Bytes) : f.Canon fr ((f.write fr).1 ++ rest) := by
+  induction f with
+  | done a => trivial
+  | record body k ih =>
+    obtain ⟨hbody, hcnt, hk⟩ := h
+    obtain ⟨hlb, hlk⟩ := hl
+    simp only [File.write, File.Canon, List.append_assoc]
+    rw [hfr _ _ hcnt]
+    simp only []
+    rw [rw_roundtrip body hlb hbody]
+    simp only []
+    rw [hfr _ _ hcnt]
+    simp only []
+    rw [takeExact_append fr.term.length fr.term _ rfl]
+    simp only []
+    obtain ⟨c1, c2⟩ := written_canon body hlb hbody
+      (fr.count.enc ↑body.write.2.1 ++ (fr.term ++ ((File.write fr (k body.write.2.2)).1 ++ rest)))
+    exact ⟨trivial, by rw [c2], c1, trivial, trivial, ih _ hlk hk⟩
+
+/-- together: reading a file the writer produced and writing what was read gives the same bytes (binary frame) -/
+theorem write_read_write_binary {α} (f : File α) (hb : f.Binary) (h : f.WF binaryFrame) (rest : Bytes) :
+    ((f.reseed binaryFrame ((f.write binaryFrame).1 ++ rest)).write binaryFrame).1 ++ rest
+      = (f.write binaryFrame).1 ++ rest :=
+  (file_rewrite_identical binaryFrame f _ rest _ (file_roundtrip_binary f hb h rest)
+    (written_file_canon binaryFrame int32_roundtrip f (File.Binary.rt f hb) h rest)).1
+
 /-- an int and a 4-character text: read from canonical bytes and re-written identically; a text field padded
 with a tab is not canonical (it would be re-written with blanks) -/
 private def pp : RW Bytes := .prim int32 0 (fun _ => .prim (str 4) [] (fun s => .done s))
@@ -870,18 +966,63 @@ theorem asciiStr_roundtrip (len : Nat) : (asciiStr len).RT := by
   simp only [List.drop_succ_cons, List.drop_zero]
   rw [rstrip_append_spaces, h2]
 
-/-- **ASCII files read back** — _partial: integer and text fields and the record framing (count field,
-newline) are covered; real fields are not (the text ↔ double conversion of `format`/`float` is a
-parameter of the model; `hl` must then supply their round trip). -/
-theorem file_roundtrip_ascii_partial {α} (f : File α) (hl : f.RT) (h : f.WF asciiFrame) (rest : Bytes) :
+/-- **The hypothesis about the host's formatting/parsing pair**: `float(" {:+.16E}".format(x)) == x`
+(same bit pattern) for every finite double x. -/
+def FloatParseSpec (parse : Bytes → Option Nat) : Prop :=
+  ∀ n, (doubleParts n).isSome → parse (asciiRealField n) = some n
+
+theorem asciiReal_roundtrip (parse : Bytes → Option Nat) (h : FloatParseSpec parse) (declared : Nat) :
+    (asciiReal parse declared).RT := by
+  intro v rest hv
+  obtain ⟨h1, h2⟩ := hv
+  simp only [asciiReal]
+  rw [List.take_left' h2, List.drop_left' h2, h v h1]
+
+inductive IsAscii (parse : Bytes → Option Nat) : {β : Type} → Codec β → Prop
+  | int : IsAscii parse asciiInt
+  | str (len : Nat) : IsAscii parse (asciiStr len)
+  | real (declared : Nat) : IsAscii parse (asciiReal parse declared)
+
+def RW.Ascii {α} (parse : Bytes → Option Nat) : RW α → Prop
+  | .done _ => True
+  | .prim c v k => IsAscii parse c ∧ RW.Ascii parse (k v)
+
+def File.Ascii {α} (parse : Bytes → Option Nat) : File α → Prop
+  | .done _ => True
+  | .record body k => body.Ascii parse ∧ File.Ascii parse (k body.write.2.2)
+
+theorem IsAscii.rt {parse} (h : FloatParseSpec parse) {β} {c : Codec β} (hc : IsAscii parse c) : c.RT := by
+  cases hc
+  · exact asciiInt_roundtrip
+  · exact asciiStr_roundtrip _
+  · exact asciiReal_roundtrip parse h _
+
+theorem RW.Ascii.rt {parse} (h : FloatParseSpec parse) {α} (p : RW α) (hp : p.Ascii parse) : p.RT := by
+  induction p with
+  | done a => trivial
+  | prim c v k ih => exact ⟨hp.1.rt h, ih v hp.2⟩
+
+theorem File.Ascii.rt {parse} (h : FloatParseSpec parse) {α} (f : File α) (hf : f.Ascii parse) : f.RT := by
+  induction f with
+  | done a => trivial
+  | record body k ih => exact ⟨RW.Ascii.rt h body hf.1, ih _ hf.2⟩
+
+/-- **ASCII files read back** — _partial: everything is proved except the text ↔ double conversion of the host
+Python, which enters as the single hypothesis `FloatParseSpec parse`. -/
+theorem file_roundtrip_ascii_partial {α} (parse : Bytes → Option Nat) (hparse : FloatParseSpec parse)
+    (f : File α) (hf : f.Ascii parse) (h : f.WF asciiFrame) (rest : Bytes) :
     f.read asciiFrame ((f.write asciiFrame).1 ++ rest) = some ((f.write asciiFrame).2, rest) :=
-  file_roundtrip asciiFrame asciiInt_roundtrip f hl h rest
+  file_roundtrip asciiFrame asciiInt_roundtrip f (File.Ascii.rt hparse f hf) h rest
+
 
 private def demoAscii : File Int :=
   .record (.prim asciiInt 7 (fun m => .prim (asciiStr 6) [65, 66] (fun _ => .done m))) (fun m => .done m)
-example : demoAscii.RT ∧ demoAscii.WF asciiFrame := by
-  refine ⟨⟨⟨asciiInt_roundtrip, asciiStr_roundtrip 6, trivial⟩, trivial⟩, ?_⟩
+example : demoAscii.Ascii (fun _ => none) ∧ demoAscii.WF asciiFrame := by
+  refine ⟨⟨⟨.int, .str 6, trivial⟩, trivial⟩, ?_⟩
   simp [demoAscii, File.WF, RW.WF, RW.write, asciiInt, asciiStr, asciiFrame]
   decide
+
+/-- 1.5 as a double is finite -/
+example : (doubleParts 4609434218613702656).isSome := by decide
 
 end ArmiVerif.Cccc
